@@ -12,22 +12,56 @@ import (
 // loop header `to` from block `from`. Returns false when the path ends.
 func (x *Exec) enterLoopHeader(cfg *Config, f *Frame, from, to *ssa.BasicBlock, ord int) bool {
 	st := cfg.st
-	// pop loops we have left
+	li := x.loops
+	if f.depth > 0 {
+		li = x.loopsOf(f.fn)
+	}
+	// pop loops (of this frame) we have left
 	for len(cfg.loops) > 0 {
 		le := cfg.loops[len(cfg.loops)-1]
-		if le.header == to || x.loops.body[le.header][to] {
+		if le.depth < f.depth {
+			break
+		}
+		if le.depth == f.depth && (le.header == to || li.body[le.header][to]) {
 			break
 		}
 		cfg.loops = cfg.loops[:len(cfg.loops)-1]
 	}
 	var active *loopEntry
-	if len(cfg.loops) > 0 && cfg.loops[len(cfg.loops)-1].header == to {
+	if len(cfg.loops) > 0 && cfg.loops[len(cfg.loops)-1].header == to && cfg.loops[len(cfg.loops)-1].depth == f.depth {
 		active = cfg.loops[len(cfg.loops)-1]
 	}
-	isBack := active != nil && x.loops.body[to][from]
+	isBack := active != nil && li.body[to][from]
 	var spec *LoopSpec
-	if x.c != nil {
-		spec = x.c.Loops[ord]
+	lname := ""
+	if f.depth == 0 {
+		if x.c != nil {
+			spec = x.c.Loops[ord]
+		}
+	} else {
+		// loop of an inlined function: its invariant is in that function's
+		// (inline) contract
+		if ic := x.P.ContractFor(f.fn); ic != nil {
+			spec = ic.Loops[ord]
+		}
+		lname = shortFuncName(fullKey(f.fn)) + "."
+	}
+	loopEnv := func() *SpecEnv {
+		if f.depth == 0 {
+			env := x.entryEnv(cfg)
+			env.frame = f
+			env.old = cfg.old
+			return env
+		}
+		ic := x.P.ContractFor(f.fn)
+		env := &SpecEnv{x: x, cfg: cfg, st: cfg.st, old: cfg.old, vars: map[string]SpecVal{}, frame: f, fn: f.fn, pkg: x.pkgOf(ic.Pkg), cf: x.P.Contracts[ic.Pkg]}
+		for _, p := range f.fn.Params {
+			env.vars[p.Name()] = x.valToSpec(cfg.st, f.regs[p], p.Type())
+		}
+		for _, fv := range f.fn.FreeVars {
+			env.vars["&"+fv.Name()] = x.valToSpec(cfg.st, f.regs[fv], fv.Type())
+		}
+		return env
 	}
 	// phi values along this edge
 	var phis []*ssa.Phi
@@ -63,17 +97,15 @@ func (x *Exec) enterLoopHeader(cfg *Config, f *Frame, from, to *ssa.BasicBlock, 
 		}
 		sb, sp, si := f.block, f.prev, f.idx
 		f.block = to
-		env := x.entryEnv(cfg)
-		env.frame = f
-		env.old = cfg.old
+		env := loopEnv()
 		for _, inv := range spec.Invariants {
 			t := x.specBool(env, inv.E)
-			x.oblige(cfg, fmt.Sprintf("loop%d-inv-%s", ord, kind), x.clauseLabel(inv), t, x.clauseProps(inv, nil), to.Instrs[0].Pos())
+			x.oblige(cfg, fmt.Sprintf("%sloop%d-inv-%s", lname, ord, kind), x.clauseLabel(inv), t, x.clauseProps(inv, nil), to.Instrs[0].Pos())
 		}
 		if kind == "preserved" && spec.Decreases != nil && active.hasDec {
 			d := x.specTerm(env, spec.Decreases.E)
 			z := x.intLit(0, d.Sort)
-			x.oblige(cfg, fmt.Sprintf("loop%d-decreases", ord), spec.Decreases.Text, And(Le(z, active.decInit), Lt(d, active.decInit)), x.clauseProps(spec.Decreases, nil), to.Instrs[0].Pos())
+			x.oblige(cfg, fmt.Sprintf("%sloop%d-decreases", lname, ord), spec.Decreases.Text, And(Le(z, active.decInit), Lt(d, active.decInit)), x.clauseProps(spec.Decreases, nil), to.Instrs[0].Pos())
 		}
 		f.block, f.prev, f.idx = sb, sp, si
 		for _, p := range phis {
@@ -99,9 +131,7 @@ func (x *Exec) enterLoopHeader(cfg *Config, f *Frame, from, to *ssa.BasicBlock, 
 		}
 		sb := f.block
 		f.block = to
-		env := x.entryEnv(cfg)
-		env.frame = f
-		env.old = cfg.old
+		env := loopEnv()
 		for _, a := range spec.EntryAssume {
 			st.assume(x.specBool(env, a.E))
 			x.usedTrusted["ASSUMED (not proved) in "+fullKey(x.fn)+": "+a.Text] = true
@@ -117,10 +147,10 @@ func (x *Exec) enterLoopHeader(cfg *Config, f *Frame, from, to *ssa.BasicBlock, 
 	}
 	evalInv("entry")
 	if spec == nil {
-		x.note("loop %d of %s has no invariant (abstracted with true)", ord, fullKey(x.fn))
+		x.note("loop %d of %s has no invariant (abstracted with true)", ord, fullKey(f.fn))
 	}
 	// havoc loop-modified state
-	mods, all := x.loopModSet(to)
+	mods, all := x.loopModSet(li, to)
 	lockHavoc := false
 	if mods["$locks"] {
 		delete(mods, "$locks")
@@ -128,7 +158,7 @@ func (x *Exec) enterLoopHeader(cfg *Config, f *Frame, from, to *ssa.BasicBlock, 
 		// ones already held here (cond.Wait requires its mutex to be held),
 		// havoc exactly what their invariants protect; a Lock of another
 		// mutex inside the body falls back to whole arrays.
-		if len(cfg.heldLocks) > 0 && !x.bodyLocks(to) {
+		if len(cfg.heldLocks) > 0 && !x.bodyLocks(li, to) {
 			lockHavoc = true
 		} else {
 			x.lockMods(mods)
@@ -188,7 +218,12 @@ func (x *Exec) enterLoopHeader(cfg *Config, f *Frame, from, to *ssa.BasicBlock, 
 				continue
 			}
 			if all || mods[name] || mods[strings.SplitN(name, "!len", 2)[0]] || mods[strings.SplitN(name, "!at", 2)[0]] {
+				prevOld := cfg.old.heap[name]
 				cfg.old.heap[name] = x.d.Fresh(fmt.Sprintf("L%dold!%s", ord, name), cfg.old.heap[name].Sort)
+				if !all {
+					// the snapshot, too, agrees with the pre-loop snapshot outside the frame
+					x.loopFrameTerm(cfg.st, name, cfg.old.heap[name], prevOld)
+				}
 			}
 		}
 		if lockHavoc {
@@ -198,15 +233,13 @@ func (x *Exec) enterLoopHeader(cfg *Config, f *Frame, from, to *ssa.BasicBlock, 
 			}
 		}
 	}
-	le := &loopEntry{header: to}
+	le := &loopEntry{header: to, depth: f.depth}
 	cfg.loops = append(cfg.loops, le)
 	f.prev = from
 	f.block = to
 	f.idx = len(phis)
 	if spec != nil {
-		env := x.entryEnv(cfg)
-		env.frame = f
-		env.old = cfg.old
+		env := loopEnv()
 		for _, inv := range spec.Invariants {
 			st.assume(x.specBool(env, inv.E))
 		}
@@ -214,7 +247,7 @@ func (x *Exec) enterLoopHeader(cfg *Config, f *Frame, from, to *ssa.BasicBlock, 
 			le.decInit = x.specTerm(env, spec.Decreases.E)
 			le.hasDec = true
 		}
-		x.canary(cfg, fmt.Sprintf("loop%d-invariant-satisfiable", ord), to.Instrs[0].Pos())
+		x.canary(cfg, fmt.Sprintf("%sloop%d-invariant-satisfiable", lname, ord), to.Instrs[0].Pos())
 	}
 	return true
 }
@@ -223,6 +256,10 @@ func (x *Exec) enterLoopHeader(cfg *Config, f *Frame, from, to *ssa.BasicBlock, 
 // clause (store-in-frame / call-in-frame), so after the havoc the array still
 // agrees with its pre-loop value on pre-existing objects outside that clause.
 func (x *Exec) loopFrame(st *State, name string, prev Term) {
+	x.loopFrameTerm(st, name, st.heap[name], prev)
+}
+
+func (x *Exec) loopFrameTerm(st *State, name string, cur, prev Term) {
 	if !x.frameReady || x.frameWhole[name] || strings.HasPrefix(name, "$") || !prev.Sort.IsArr() || prev.Sort.IndexSort() != SInt {
 		return
 	}
@@ -234,7 +271,6 @@ func (x *Exec) loopFrame(st *State, name string, prev Term) {
 	for _, l := range x.frameLocs[name] {
 		conds = append(conds, Neq(o, l))
 	}
-	cur := st.heap[name]
 	st.assume(Forall([]Term{o}, Implies(And(conds...), Eq(Select(cur, o), Select(prev, o))), []Term{Select(cur, o)}))
 }
 
@@ -259,7 +295,7 @@ func (x *Exec) pendingHavoc(st *State, mods map[string]bool, ord int) {
 }
 
 // loopModSet statically over-approximates the heap arrays a loop may write.
-func (x *Exec) loopModSet(h *ssa.BasicBlock) (map[string]bool, bool) {
+func (x *Exec) loopModSet(li *loopInfo, h *ssa.BasicBlock) (map[string]bool, bool) {
 	mods := map[string]bool{}
 	all := false
 	seen := map[*ssa.Function]bool{}
@@ -357,7 +393,7 @@ func (x *Exec) loopModSet(h *ssa.BasicBlock) (map[string]bool, bool) {
 			}
 		}
 	}
-	for b := range x.loops.body[h] {
+	for b := range li.body[h] {
 		for _, in := range b.Instrs {
 			scanInstr(in)
 		}
@@ -366,8 +402,8 @@ func (x *Exec) loopModSet(h *ssa.BasicBlock) (map[string]bool, bool) {
 }
 
 // bodyLocks: does the loop body acquire a mutex directly (Lock call)?
-func (x *Exec) bodyLocks(h *ssa.BasicBlock) bool {
-	for b := range x.loops.body[h] {
+func (x *Exec) bodyLocks(li *loopInfo, h *ssa.BasicBlock) bool {
+	for b := range li.body[h] {
 		for _, in := range b.Instrs {
 			ci, ok := in.(ssa.CallInstruction)
 			if !ok {
@@ -599,4 +635,11 @@ func (x *Exec) staticTypeOf(env *SpecEnv, c *FuncContract, fn *ssa.Function, e E
 		}
 	}
 	return nil
+}
+
+func shortFuncName(key string) string {
+	if i := strings.LastIndex(key, "."); i >= 0 {
+		return key[i+1:]
+	}
+	return key
 }
